@@ -85,6 +85,7 @@ func VPH_C03_create_existing() {
 		// the existing object was not made by a CREATE with this verifier (fresh server)
 		vpKnown("K-C03-exclusive-no-verifier", true)
 		vpAssert(status == NFSERR_EXIST, "exclusive-existing-is-EXIST")
+		vpKnownClear()
 		vpAssert(after == before, "exclusive-existing-untouched")
 	}
 	vpKnownClear()
